@@ -623,7 +623,7 @@ Section Refine.
     - eapply steps_step; [reflexivity| |].
       { red_pstep. rewrite Ee. reflexivity. }
       apply steps_one; [reflexivity|].
-      red_pstep. unfold fs_exists. rewrite Hn. reflexivity.
+      red_pstep. unfold fs_islink, fs_exists. rewrite Hn. cbn [andb]. reflexivity.
     - apply steps_one; [reflexivity|].
       red_pstep. rewrite Ee. reflexivity.
   Qed.
@@ -637,7 +637,7 @@ Section Refine.
     eapply steps_step; [reflexivity| |].
     { red_pstep. unfold fs_exists. rewrite Hp. reflexivity. }
     eapply steps_step; [reflexivity| |].
-    { red_pstep. unfold fs_exists. rewrite Hl, Ht. reflexivity. }
+    { red_pstep. unfold fs_islink, fs_exists. rewrite Hl, Ht. cbn [andb]. reflexivity. }
     apply steps_one; [reflexivity|].
     red_pstep. unfold fs_realpath. rewrite Hl. reflexivity.
   Qed.
@@ -876,4 +876,382 @@ Section Refine.
           { destruct (sprefix x loc) eqn:Es; [|reflexivity]. exfalso. apply H. apply sprefix_in_anc; assumption. }
           rewrite Hs. cbn [orb]. rewrite (Hother x H Hxl). exact (Hzone x Hgx).
   Qed.
+  (* ---------------------------------------------------------------------------------------------------------------- *)
+  (* side conditions on the requests *)
+  (* committed locations stay prefix-free: a location bound by sync_paths is comparable with no other bound location *)
+  Fixpoint items_locs_ok (ps : list (path * bytes)) (items : list (path * bytes)) : Prop :=
+    match items with
+    | [] => True
+    | it :: r => compat ps (fst it) /\ items_locs_ok (pupd (fst it) (snd it) ps) r
+    end.
+
+  (* [op_locs_ok] for fetch_paths is REQUIRED: the model answers RKey loc (not RErr) for any existing name that is not a
+     link, e.g. OpSync [(data/d/p, k)]; OpFetchPath (data/d)  gives  RKey (data/d), and OpFetchPath blobs_dir gives
+     RKey blobs_dir, whereas the dictionary has no binding there.  So the location asked about must lie strictly below
+     data and must not be a directory of the data tree (a strict prefix of a bound location). *)
+  Definition op_locs_ok (st : astate) (o : opcall) : Prop :=
+    match o with
+    | OpSync items => items_locs_ok (a_paths st) items
+    | OpFetchPath loc => good_loc loc /\ forall l, In l (map fst (a_paths st)) -> is_prefix loc l = true -> l = loc
+    | _ => True
+    end.
+  (* [op_stored_ok] is REQUIRED: OpSync [(loc, k)]; OpFetchPath loc  with k never stored leaves a dangling link, for
+     which the model answers RErr (os.path.exists follows the link) whereas the dictionary answers RKey (blob k). *)
+  Definition op_stored_ok (st : astate) (o : opcall) : Prop :=
+    match o with
+    | OpSync items => forall loc k, In (loc, k) items -> In k (a_keys st)
+    | _ => True
+    end.
+
+  Fixpoint locs_ok (st : astate) (ops : list opcall) : Prop :=
+    match ops with
+    | [] => True
+    | o :: r => op_locs_ok st o /\ locs_ok (fst (spec_op st o)) r
+    end.
+  Fixpoint stored_ok (st : astate) (ops : list opcall) : Prop :=
+    match ops with
+    | [] => True
+    | o :: r => op_stored_ok st o /\ stored_ok (fst (spec_op st o)) r
+    end.
+
+  (* ---------------------------------------------------------------------------------------------------------------- *)
+  (* one operation *)
+  Lemma sync_refines : forall items pid cnt todo outs fs st, separated -> R fs st ->
+    (forall loc k, In (loc, k) items -> good_key k = true /\ good_loc loc) ->
+    (forall loc k, In (loc, k) items -> In k (a_keys st)) ->
+    items_locs_ok (a_paths st) items ->
+    exists fs' cnt', steps fs (Proc pid cnt (PSP_next items) todo outs) fs' (Proc pid cnt' PIdle todo (outs ++ [RUnit])) /\
+                     cnt <= cnt' /\ R fs' (AState (a_keys st) (sync_paths items (a_paths st))).
+  Proof.
+    induction items as [|[loc k] items IH]; intros pid cnt todo outs fs st Hsep HR Hg Hst Hlo.
+    - exists fs, cnt. split; [apply steps_one; reflexivity|]. split; [lia|]. destruct st as [ks ps]. exact HR.
+    - destruct (Hg loc k (or_introl eq_refl)) as [Hk Hl]. cbn [items_locs_ok fst snd] in Hlo. destruct Hlo as [Hc Hlo].
+      pose proof HR as (_ & Hdata & _ & _ & Hnt & _).
+      destruct (item_steps pid cnt todo outs fs loc k items Hl Hdata Hnt) as (fs1 & cnt1 & Hs1 & Hf1).
+      { intros d Hd. apply (R_anc fs st loc d HR Hl Hc Hd). }
+      { apply (R_anc_closed fs st loc HR Hl Hc). }
+      { apply (R_loc_free fs st loc HR Hl Hc). }
+      assert (HR1 : R fs1 (AState (a_keys st) ((loc, k) :: a_paths st))).
+      { apply (R_item fs fs1 st loc k Hsep HR Hk); [apply Hst with loc; left; reflexivity|exact Hl|exact Hc|exact Hf1]. }
+      destruct (IH pid cnt1 todo outs fs1 _ Hsep HR1) as (fs' & cnt' & Hs' & Hle & HR').
+      { intros l' k' H. apply Hg. right. exact H. }
+      { intros l' k' H. cbn [a_keys]. apply Hst with l'. right. exact H. }
+      { exact Hlo. }
+      exists fs', cnt'. split; [eapply steps_trans; [exact Hs1|exact Hs']|]. split; [|exact HR'].
+      (* the counter never decreases: read it off item_steps *)
+      clear - Hle Hs1. 
+      assert (Hmono : forall fa pa fb pb, steps fa pa fb pb -> p_cnt pa <= p_cnt pb).
+      { intros fa pa fb pb H. induction H as [|fa pa fb pb fc pc Hl Hs Hr IH]; [lia|].
+        destruct (pstep_cnt root data enc menc fa pa (whole pa)) as [Hc _]. rewrite Hs in Hc. simpl in Hc. lia. }
+      apply Hmono in Hs1. simpl in Hs1. lia.
+  Qed.
+
+  Lemma R_has : forall fs st k, R fs st -> good_key k = true -> fs_exists fs (meta k) = mem k (a_keys st).
+  Proof.
+    intros fs st k (_ & _ & HB & _ & _ & Hmk & _) Hk. unfold fs_exists.
+    destruct (fs (meta k)) as [n|] eqn:E.
+    - destruct (HB k Hk) as [_ H2]. destruct (H2 _ E) as [En _]. subst n. symmetry. apply mem_In. apply (Hmk k Hk). congruence.
+    - destruct (mem k (a_keys st)) eqn:Em; [|reflexivity]. apply mem_In in Em. apply (Hmk k Hk) in Em. contradiction.
+  Qed.
+
+  Lemma op_refines : forall fs st pid cnt todo outs o, separated -> R fs st ->
+    good_op o -> op_locs_ok st o -> op_stored_ok st o ->
+    exists fs' cnt', steps fs (Proc pid cnt PIdle (o :: todo) outs)
+                           fs' (Proc pid cnt' PIdle todo (outs ++ [snd (spec_op st o)])) /\
+                     cnt <= cnt' /\ R fs' (fst (spec_op st o)).
+  Proof.
+    intros fs st pid cnt todo outs o Hsep HR Hg Hlo Hso.
+    destruct o as [|k|items|k|k|loc]; cbn [spec_op fst snd].
+    - (* init *) exists fs, cnt. split; [apply init_steps; apply HR|]. split; [lia|exact HR].
+    - (* store *) simpl in Hg. pose proof HR as (_ & _ & HB & _ & Hnt & _).
+      destruct (store_steps pid cnt todo outs fs k (R_visible_root fs st HR) Hg (R_blobs_dir fs st HR) Hnt) as (fs' & Hs & Hf).
+      { intro E. destruct (HB k Hg) as [H1 _]. specialize (H1 _ E). discriminate. }
+      { intro E. destruct (HB k Hg) as [_ H2]. destruct (H2 _ E) as [H3 _]. discriminate. }
+      exists fs', (S (S cnt)). split; [exact Hs|]. split; [lia|]. apply (R_store fs fs' st k Hsep HR Hg Hf).
+    - (* sync *) simpl in Hg, Hlo, Hso.
+      destruct (sync_refines items pid cnt todo outs fs st Hsep HR) as (fs' & cnt' & Hs & Hle & HR').
+      { intros l k H. exact (Hg l k H). }
+      { exact Hso. }
+      { exact Hlo. }
+      exists fs', cnt'. split; [eapply steps_trans; [apply st_start|exact Hs]|]. split; assumption.
+    - (* has *) simpl in Hg. exists fs, cnt. split; [|split; [lia|exact HR]].
+      rewrite <- (R_has fs st k HR Hg). apply has_steps.
+    - (* fetch *) simpl in Hg. exists fs, cnt. split; [|split; [lia|exact HR]].
+      pose proof HR as (_ & _ & HB & _ & _ & Hmk & _). destruct (HB k Hg) as [B1 B2].
+      destruct (mem k (a_keys st)) eqn:Em.
+      + apply mem_In in Em. apply (Hmk k Hg) in Em. destruct (fs (meta k)) as [n|] eqn:E; [|congruence].
+        destruct (B2 _ eq_refl) as [En Eb]. subst n. apply fetch_present; assumption.
+      + apply fetch_absent.
+        * destruct (fs (meta k)) as [n|] eqn:E; [|reflexivity]. exfalso.
+          assert (H : In k (a_keys st)) by (apply (Hmk k Hg); congruence). apply mem_In in H. congruence.
+        * destruct (fs (blob k)) as [n|] eqn:E; [|left; reflexivity]. right. exists (enc k). rewrite (B1 _ eq_refl). reflexivity.
+    - (* fetch_paths *) simpl in Hlo. destruct Hlo as [Hl Hnp]. exists fs, cnt. split; [|split; [lia|exact HR]].
+      pose proof (R_zone fs st loc HR Hl) as Hz. unfold zone in Hz.
+      pose proof HR as (_ & Hdata & HB & _ & _ & Hmk & Hwf & Hpf & _).
+      destruct (lookup loc (a_paths st)) as [k|] eqn:E.
+      + destruct (Hwf loc k (lookup_In _ _ _ E)) as (Hk & Hin & _).
+        apply fpath_present with (enc k); [|exact Hz|].
+        * destruct (parent_in_anc loc Hl) as [Ep|Hp]; [rewrite Ep; exact Hdata|].
+          destruct (anc_is_prefix loc _ Hl Hp) as [Hs Hgp].
+          pose proof (R_zone fs st _ HR Hgp) as Hzp. unfold zone in Hzp.
+          destruct (lookup (parent loc) (a_paths st)) as [k'|] eqn:E'.
+          -- exfalso. apply (sprefix_neq _ _ Hs). apply Hpf; [eapply lookup_Some_dom; exact E'|eapply lookup_Some_dom; exact E|].
+             apply sprefix_prefix. exact Hs.
+          -- assert (Ha : is_anc (parent loc) (a_paths st) = true).
+             { apply is_anc_spec. exists loc. split; [eapply lookup_Some_dom; exact E|exact Hs]. }
+             rewrite Ha in Hzp. exact Hzp.
+        * apply (Hmk k Hk) in Hin. destruct (fs (meta k)) as [n|] eqn:Em; [|congruence].
+          destruct (HB k Hk) as [_ B2]. apply (B2 _ Em).
+      + apply fpath_absent. destruct (is_anc loc (a_paths st)) eqn:Ea; [|exact Hz].
+        exfalso. apply is_anc_spec in Ea as (l & Hin & Hs). apply (sprefix_neq _ _ Hs). symmetry.
+        apply Hnp; [exact Hin|apply sprefix_prefix; exact Hs].
+  Qed.
+
+  (* ---------------------------------------------------------------------------------------------------------------- *)
+  (* a list of operations *)
+  Lemma seq_refines_steps : forall ops fs st pid cnt outs, separated -> R fs st ->
+    Forall good_op ops -> locs_ok st ops -> stored_ok st ops ->
+    exists fs' cnt', steps fs (Proc pid cnt PIdle ops outs) fs' (Proc pid cnt' PIdle [] (outs ++ spec_run st ops)) /\
+                     cnt <= cnt' /\ R fs' (spec_state st ops).
+  Proof.
+    induction ops as [|o ops IH]; intros fs st pid cnt outs Hsep HR Hg Hlo Hso.
+    - exists fs, cnt. cbn [spec_run spec_state]. rewrite app_nil_r. split; [apply steps_refl|]. split; [lia|exact HR].
+    - inversion Hg as [|o' ops' Hgo Hgr]; subst. cbn [locs_ok stored_ok] in Hlo, Hso.
+      destruct Hlo as [Hlo1 Hlo2]. destruct Hso as [Hso1 Hso2].
+      destruct (op_refines fs st pid cnt ops outs o Hsep HR Hgo Hlo1 Hso1) as (fs1 & cnt1 & Hs1 & Hle1 & HR1).
+      destruct (IH fs1 _ pid cnt1 (outs ++ [snd (spec_op st o)]) Hsep HR1 Hgr Hlo2 Hso2) as (fs' & cnt' & Hs' & Hle' & HR').
+      exists fs', cnt'. cbn [spec_run spec_state]. split; [|split; [lia|exact HR']].
+      rewrite <- app_assoc in Hs'. eapply steps_trans; [exact Hs1|exact Hs'].
+  Qed.
+
+  Theorem seq_refines_dictionary : forall fs st p ops,
+    separated -> R fs st ->
+    p_pc p = PIdle -> p_outs p = [] -> p_todo p = ops ->
+    Forall good_op ops -> locs_ok st ops -> stored_ok st ops ->
+    exists fuel, let '(fs', p', _) := run_seq fuel fs p [] in
+      p_pc p' = PIdle /\ p_todo p' = [] /\ p_outs p' = spec_run st ops /\ R fs' (spec_state st ops).
+  Proof.
+    intros fs st [pid cnt pc todo outs] ops Hsep HR Hpc Houts Htodo Hg Hlo Hso. cbn [p_pc p_outs p_todo] in *. subst pc outs todo.
+    destruct (seq_refines_steps ops fs st pid cnt [] Hsep HR Hg Hlo Hso) as (fs' & cnt' & Hs & _ & HR').
+    destruct (steps_run_seq _ _ _ _ Hs) as [fuel Hf]. destruct (Hf []) as [t Ht].
+    exists fuel. rewrite Ht. cbn [p_pc p_todo p_outs app]. auto.
+  Qed.
+  (* ---------------------------------------------------------------------------------------------------------------- *)
+  (* R is satisfiable: exactly the directories of the store exist, nothing is stored, nothing is committed *)
+  Definition init_fs : fsys := fun x =>
+    if path_eqb x [] || existsb (path_eqb x) init_dirs || path_eqb x data then Some NDir else None.
+
+  Lemma init_fs_some : forall x n, init_fs x = Some n -> n = NDir /\ (x = [] \/ In x init_dirs \/ x = data).
+  Proof.
+    intros x n H. unfold init_fs in H.
+    destruct (path_eqb x [] || existsb (path_eqb x) init_dirs || path_eqb x data) eqn:E; [|discriminate].
+    split; [congruence|]. apply orb_true_iff in E as [E|E]; [apply orb_true_iff in E as [E|E]|].
+    - left. apply path_eqb_eq. exact E.
+    - right. left. apply existsb_path_In. exact E.
+    - right. right. apply path_eqb_eq. exact E.
+  Qed.
+
+  Lemma init_names_good : separated -> visible root = true -> visible data = true ->
+    forall x, (x = [] \/ In x init_dirs \/ x = data) ->
+      visible x = true /\ ~ in_blobs root x /\ forall segs, segs <> [] -> x <> data ++ segs.
+  Proof.
+    intros Hsep Hvr Hvd x Hx. pose proof Hsep as [Hs1 Hs2].
+    assert (Hdb : forall y, blobs_dir <> data ++ y).
+    { intros y E. assert (H : is_prefix data blobs_dir = true) by (apply is_prefix_spec; exists y; exact E). congruence. }
+    destruct Hx as [Hx|[Hx|Hx]].
+    - subst x. split; [reflexivity|]. split.
+      + intros [c Hc]. destruct blobs_dir; discriminate.
+      + intros segs Hne E. symmetry in E. apply app_eq_nil in E as [_ E]. congruence.
+    - pose proof (init_dirs_good root data Hsep Hvr Hvd) as Hg. rewrite Forall_forall in Hg.
+      destruct (Hg x Hx) as [Hv Hnb]. split; [exact Hv|]. split; [exact Hnb|].
+      intros segs Hne E. unfold CrashProofs.init_dirs in Hx.
+      apply in_app_or in Hx as [Hx|Hx]; [|apply in_app_or in Hx as [Hx|Hx]].
+      + apply dirs_between_spec in Hx as (a & b & _ & Hr & Hxa). simpl in Hxa. subst a.
+        apply (Hdb (segs ++ b ++ [CName (bs "blobs")])). unfold LocalProgs.blobs_dir. rewrite Hr, E.
+        rewrite <- !app_assoc. reflexivity.
+      + apply dirs_between_spec in Hx as (a & b & _ & Hr & Hxa). simpl in Hxa. subst a.
+        rewrite E in Hr. rewrite <- app_assoc in Hr. rewrite <- (app_nil_r data) in Hr at 1. apply app_inv_head in Hr.
+        symmetry in Hr. apply app_eq_nil in Hr as [Hr _]. congruence.
+      + destruct Hx as [Hx|[]]. subst x. exact (Hdb segs E).
+    - subst x. split; [exact Hvd|]. split.
+      + intros [c Hc]. assert (H : is_prefix blobs_dir data = true) by (apply is_prefix_spec; exists [c]; exact Hc). congruence.
+      + intros segs Hne E. rewrite <- (app_nil_r data) in E at 1. apply app_inv_head in E. congruence.
+  Qed.
+
+  Lemma R_init : separated -> visible root = true -> visible data = true -> R init_fs (AState [] []).
+  Proof.
+    intros Hsep Hvr Hvd. pose proof (init_names_good Hsep Hvr Hvd) as Hg.
+    assert (Hnb : forall x, in_blobs root x -> init_fs x = None).
+    { intros x Hx. destruct (init_fs x) as [n|] eqn:E; [|reflexivity]. apply init_fs_some in E as [_ E].
+      destruct (Hg x E) as (_ & H & _). contradiction. }
+    split; [|split; [|split; [|split; [|split; [|split; [|split; [|split]]]]]]].
+    - intros d Hd. unfold init_fs. rewrite (proj2 (existsb_path_In _ _) Hd). rewrite orb_true_r. reflexivity.
+    - unfold init_fs. rewrite path_eqb_refl. rewrite orb_true_r. reflexivity.
+    - intros k Hk. split; intros n Hn.
+      + rewrite (Hnb _ (blob_in_blobs root k)) in Hn. discriminate.
+      + rewrite (Hnb _ (meta_in_blobs root k)) in Hn. discriminate.
+    - intros loc t _ H. apply init_fs_some in H as [H _]. discriminate.
+    - intros x Hx. destruct (init_fs x) as [n|] eqn:E; [|reflexivity]. apply init_fs_some in E as [_ E].
+      destruct (Hg x E) as (H & _). congruence.
+    - intros k Hk. cbn [a_keys]. rewrite (Hnb _ (meta_in_blobs root k)). split; [congruence|intros []].
+    - intros l k [].
+    - intros l l' [].
+    - intros segs Hne Hv. unfold zone. cbn [a_paths lookup is_anc existsb].
+      destruct (init_fs (data ++ segs)) as [n|] eqn:E; [|reflexivity]. apply init_fs_some in E as [_ E].
+      destruct (Hg _ E) as (_ & _ & H). exfalso. exact (H segs Hne eq_refl).
+  Qed.
+
+  (* ---------------------------------------------------------------------------------------------------------------- *)
+  (* facts about the specification, and the two corollaries *)
+  Lemma spec_run_app : forall a st b, spec_run st (a ++ b) = spec_run st a ++ spec_run (spec_state st a) b.
+  Proof. induction a as [|o a IH]; intros st b; [reflexivity|]. cbn [app spec_run spec_state]. rewrite IH. reflexivity. Qed.
+
+  Lemma spec_state_app : forall a st b, spec_state st (a ++ b) = spec_state (spec_state st a) b.
+  Proof. induction a as [|o a IH]; intros st b; [reflexivity|]. cbn [app spec_state]. apply IH. Qed.
+
+  Lemma spec_run_length : forall ops st, List.length (spec_run st ops) = List.length ops.
+  Proof. induction ops as [|o ops IH]; intro st; [reflexivity|]. cbn [spec_run List.length]. rewrite IH. reflexivity. Qed.
+
+  Lemma keys_mono : forall ops st k, In k (a_keys st) -> In k (a_keys (spec_state st ops)).
+  Proof.
+    induction ops as [|o ops IH]; intros st k H; [exact H|]. cbn [spec_state]. apply IH.
+    destruct o; cbn [spec_op fst a_keys]; try exact H. right. exact H.
+  Qed.
+
+  Lemma spec_store_has_fetch : forall st pre mid k, exists rs,
+    List.length rs = List.length pre + 1 + List.length mid /\
+    spec_run st (pre ++ [OpStore k] ++ mid ++ [OpHas k; OpFetch k]) = rs ++ [RBool true; RBlob k (menc k) (enc k)].
+  Proof.
+    intros st pre mid k.
+    set (st1 := spec_state st pre). set (st2 := fst (spec_op st1 (OpStore k))). set (st3 := spec_state st2 mid).
+    exists (spec_run st pre ++ [RUnit] ++ spec_run st2 mid). split.
+    - rewrite !app_length, !spec_run_length. simpl. lia.
+    - rewrite spec_run_app. fold st1. cbn [app spec_run spec_op snd]. fold st2. rewrite spec_run_app. fold st3.
+      cbn [spec_run spec_op fst snd].
+      assert (Hm : mem k (a_keys st3) = true).
+      { apply mem_In. apply keys_mono. left. reflexivity. }
+      subst st3 st2. cbn [spec_op fst snd] in *. rewrite Hm. rewrite <- !app_assoc. reflexivity.
+  Qed.
+
+  Theorem store_then_has_fetch : forall fs st p pre mid k,
+    separated -> R fs st ->
+    p_pc p = PIdle -> p_outs p = [] -> p_todo p = pre ++ [OpStore k] ++ mid ++ [OpHas k; OpFetch k] ->
+    Forall good_op (pre ++ [OpStore k] ++ mid ++ [OpHas k; OpFetch k]) ->
+    locs_ok st (pre ++ [OpStore k] ++ mid ++ [OpHas k; OpFetch k]) ->
+    stored_ok st (pre ++ [OpStore k] ++ mid ++ [OpHas k; OpFetch k]) ->
+    exists fuel rs, let '(_, p', _) := run_seq fuel fs p [] in
+      p_pc p' = PIdle /\ p_todo p' = [] /\
+      List.length rs = List.length pre + 1 + List.length mid /\
+      p_outs p' = rs ++ [RBool true; RBlob k (menc k) (enc k)].
+  Proof.
+    intros fs st p pre mid k Hsep HR Hpc Houts Htodo Hg Hlo Hso.
+    destruct (seq_refines_dictionary fs st p _ Hsep HR Hpc Houts Htodo Hg Hlo Hso) as [fuel H].
+    destruct (spec_store_has_fetch st pre mid k) as (rs & Hlen & Hrs).
+    exists fuel, rs. destruct (run_seq fuel fs p []) as [[fs' p'] t]. destruct H as (H1 & H2 & H3 & _).
+    split; [exact H1|]. split; [exact H2|]. split; [exact Hlen|]. rewrite H3. exact Hrs.
+  Qed.
+
+  Lemma sync_paths_eq : forall items ps, sync_paths items ps = rev items ++ ps.
+  Proof.
+    unfold sync_paths. induction items as [|[l k] r IH]; intro ps; [reflexivity|].
+    cbn [fold_left fst snd rev]. rewrite IH. unfold pupd. rewrite <- app_assoc. reflexivity.
+  Qed.
+
+  Lemma lookup_app : forall loc a b,
+    lookup loc (a ++ b) = match lookup loc a with Some k => Some k | None => lookup loc b end.
+  Proof.
+    intros loc a b. induction a as [|[l k] a IH]; [reflexivity|]. cbn [app lookup].
+    destruct (path_eqb loc l); [reflexivity|exact IH].
+  Qed.
+
+  Definition commits_loc (loc : path) (o : opcall) : Prop :=
+    match o with OpSync items => In loc (map fst items) | _ => False end.
+
+  Lemma paths_keep : forall ops st loc k, lookup loc (a_paths st) = Some k ->
+    (forall o, In o ops -> ~ commits_loc loc o) -> lookup loc (a_paths (spec_state st ops)) = Some k.
+  Proof.
+    induction ops as [|o ops IH]; intros st loc k H Hn; [exact H|]. cbn [spec_state]. apply IH.
+    - pose proof (Hn o (or_introl eq_refl)) as Ho.
+      destruct o as [|k'|items|k'|k'|loc']; cbn [spec_op fst a_paths]; try exact H.
+      rewrite sync_paths_eq, lookup_app. simpl in Ho.
+      assert (E : lookup loc (rev items) = None).
+      { apply lookup_None. rewrite map_rev. rewrite <- in_rev. exact Ho. }
+      rewrite E. exact H.
+    - intros o' Ho'. apply Hn. right. exact Ho'.
+  Qed.
+
+  Lemma spec_sync_fetch_path : forall st pre mid items loc k,
+    lookup loc (rev items) = Some k -> (forall o, In o mid -> ~ commits_loc loc o) ->
+    exists rs, List.length rs = List.length pre + 1 + List.length mid /\
+      spec_run st (pre ++ [OpSync items] ++ mid ++ [OpFetchPath loc]) = rs ++ [RKey (blob k)].
+  Proof.
+    intros st pre mid items loc k Hl Hn.
+    set (st1 := spec_state st pre). set (st2 := fst (spec_op st1 (OpSync items))). set (st3 := spec_state st2 mid).
+    exists (spec_run st pre ++ [RUnit] ++ spec_run st2 mid). split.
+    - rewrite !app_length, !spec_run_length. simpl. lia.
+    - rewrite spec_run_app. fold st1. cbn [app spec_run spec_op snd]. fold st2. rewrite spec_run_app. fold st3.
+      cbn [spec_run spec_op fst snd].
+      assert (Hm : lookup loc (a_paths st3) = Some k).
+      { apply paths_keep; [|exact Hn]. unfold st2. cbn [spec_op fst a_paths]. rewrite sync_paths_eq, lookup_app.
+        rewrite Hl. reflexivity. }
+      subst st3 st2. cbn [spec_op fst snd] in *. rewrite Hm. rewrite <- !app_assoc. reflexivity.
+  Qed.
+
+  (* [lookup loc (rev items) = Some k]: (loc, k) is the last binding of loc in items *)
+  Theorem sync_then_fetch_path : forall fs st p pre mid items loc k,
+    separated -> R fs st ->
+    p_pc p = PIdle -> p_outs p = [] -> p_todo p = pre ++ [OpSync items] ++ mid ++ [OpFetchPath loc] ->
+    Forall good_op (pre ++ [OpSync items] ++ mid ++ [OpFetchPath loc]) ->
+    locs_ok st (pre ++ [OpSync items] ++ mid ++ [OpFetchPath loc]) ->
+    stored_ok st (pre ++ [OpSync items] ++ mid ++ [OpFetchPath loc]) ->
+    lookup loc (rev items) = Some k ->
+    (forall o, In o mid -> ~ commits_loc loc o) ->
+    exists fuel rs, let '(_, p', _) := run_seq fuel fs p [] in
+      p_pc p' = PIdle /\ p_todo p' = [] /\
+      List.length rs = List.length pre + 1 + List.length mid /\
+      p_outs p' = rs ++ [RKey (blob k)].
+  Proof.
+    intros fs st p pre mid items loc k Hsep HR Hpc Houts Htodo Hg Hlo Hso Hl Hn.
+    destruct (seq_refines_dictionary fs st p _ Hsep HR Hpc Houts Htodo Hg Hlo Hso) as [fuel H].
+    destruct (spec_sync_fetch_path st pre mid items loc k Hl Hn) as (rs & Hlen & Hrs).
+    exists fuel, rs. destruct (run_seq fuel fs p []) as [[fs' p'] t]. destruct H as (H1 & H2 & H3 & _).
+    split; [exact H1|]. split; [exact H2|]. split; [exact Hlen|]. rewrite H3. exact Hrs.
+  Qed.
 End Refine.
+
+(* ------------------------------------------------------------------------------------------------------------------ *)
+(* non-vacuity: the hypotheses of the refinement theorem hold for a concrete store and a concrete list of operations *)
+Definition sx_loc : path := ex_data ++ [CName (bs "d"); CName (bs "p")].
+Definition sx_ops : list opcall :=
+  [OpInit; OpStore ex_key; OpSync [(sx_loc, ex_key)]; OpHas ex_key; OpFetch ex_key; OpFetchPath sx_loc].
+
+Lemma seq_refines_example :
+  exists fuel,
+    let '(fs', p', _) := run_seq ex_root ex_data (fun k => k) (fun k => k) fuel
+                                 (init_fs ex_root ex_data) (Proc 1 0 PIdle sx_ops []) [] in
+    p_pc p' = PIdle /\ p_todo p' = [] /\
+    p_outs p' = [RUnit; RUnit; RUnit; RBool true; RBlob ex_key ex_key ex_key; RKey (blob ex_root ex_key)] /\
+    R ex_root ex_data (fun k => k) (fun k => k) fs' (AState [ex_key] [(sx_loc, ex_key)]).
+Proof.
+  assert (Hsep : separated ex_root ex_data) by (split; reflexivity).
+  assert (HR : R ex_root ex_data (fun k => k) (fun k => k) (init_fs ex_root ex_data) (AState [] []))
+    by (apply R_init; [exact Hsep|reflexivity|reflexivity]).
+  assert (Hgl : good_loc ex_data sx_loc).
+  { split; [reflexivity|]. exists [CName (bs "d"); CName (bs "p")]. split; [discriminate|reflexivity]. }
+  assert (Hg : Forall (good_op ex_data) sx_ops).
+  { unfold sx_ops. constructor; [exact I|]. constructor; [reflexivity|]. constructor.
+    { intros loc k [H|[]]. inversion H; subst. split; [reflexivity|]. exact Hgl. }
+    constructor; [reflexivity|]. constructor; [reflexivity|]. constructor; [reflexivity|]. constructor. }
+  assert (Hlo : locs_ok ex_root ex_data (fun k => k) (fun k => k) (AState [] []) sx_ops).
+  { cbn [locs_ok sx_ops op_locs_ok spec_op fst items_locs_ok a_paths a_keys sync_paths fold_left pupd snd].
+    split; [exact I|]. split; [exact I|]. split; [split; [intros l []|exact I]|]. split; [exact I|]. split; [exact I|].
+    split; [|exact I]. split; [exact Hgl|]. intros l [H|[]] _. symmetry. exact H. }
+  assert (Hso : stored_ok ex_root (fun k => k) (fun k => k) (AState [] []) sx_ops).
+  { cbn [stored_ok sx_ops op_stored_ok spec_op fst a_keys a_paths]. split; [exact I|]. split; [exact I|]. split; [|repeat split].
+    intros loc k [H|[]]. inversion H. left. reflexivity. }
+  destruct (seq_refines_dictionary ex_root ex_data (fun k => k) (fun k => k) _ _ (Proc 1 0 PIdle sx_ops []) sx_ops
+              Hsep HR eq_refl eq_refl eq_refl Hg Hlo Hso) as [fuel H].
+  exists fuel. destruct (run_seq ex_root ex_data (fun k => k) (fun k => k) fuel _ _ _) as [[fs' p'] t].
+  destruct H as (H1 & H2 & H3 & H4). split; [exact H1|]. split; [exact H2|]. split; [|exact H4].
+  rewrite H3. vm_compute. reflexivity.
+Qed.
